@@ -151,9 +151,11 @@ pub fn site_name(site: u16) -> &'static str {
         0 => "lazy.load",
         1 => "lazy.cas",
         2 => "lazy.cas_weak",
+        3 => "lazy.after_cas",
         16 => "owned.load",
         17 => "owned.cas",
         18 => "owned.cas_weak",
+        19 => "owned.after_cas",
         32 => "arena.inc",
         33 => "arena.dec",
         34 => "value.clone",
@@ -351,6 +353,19 @@ fn hook_cas(site: u16) -> bool {
 }
 
 fn hook_event(kind: u8, arg: usize) {
+    use sonic_rs::verif as v;
+    // the shim reports the outcome of a compare-exchange right after it: a scheduling point *behind* the
+    // operation, so that whatever the winner (or loser) does next with the published object can interleave
+    // with readers that already see it
+    if (kind == v::EV_CAS_WON || kind == v::EV_CAS_LOST) && arg < 29 {
+        hook_event_inner(kind, arg);
+        yield_point(arg as u16 + 3);
+        return;
+    }
+    hook_event_inner(kind, arg)
+}
+
+fn hook_event_inner(kind: u8, arg: usize) {
     use sonic_rs::verif as v;
     crate::heap::harness(|| match kind {
         v::EV_ARENA_NEW => {
